@@ -23,7 +23,7 @@ NActs == 4               \* activation symbols of ordinary nodes 0..3, of module
 
 Shape(roles, ids, mg, mgm, mm) == [roles |-> roles, ids |-> ids, mg |-> mg, mgm |-> mgm, mm |-> mm]
 ShapesQuick == {
-    Shape(<<"I", "O">>, <<1, 2>>, 4, 2, 1),
+    Shape(<<"I", "O">>, <<1, 2>>, 4, 2, 2),
     Shape(<<"I", "B", "O", "H">>, <<1, 2, 3, 4>>, 3, 1, 1),
     Shape(<<"I", "I", "H", "O">>, <<1, 2, 4, 6>>, 3, 1, 1),
     Shape(<<"B", "I", "O", "O", "H">>, <<1, 2, 3, 4, 5>>, 2, 0, 0) }
